@@ -1,39 +1,340 @@
-"""C05 - Path-pattern matching follows the documented pattern language."""
-import os
+"""C05 - Path-pattern matching follows the documented pattern language.
+
+Obligation families (see DESIGN.md "### C05"):
+  C05.rtosc_match_number.contract   [proof]   memory safety + termination, strings of any length 1..4096
+  C05.rtosc_match_path.contract     [proof]   same, callees replaced by their contracts
+  C05.rtosc_match_options.contract  [bounded] same contract, all loops unwound, strings <= OPT_N bytes
+  C05.match.*                       [bounded] rtosc_match == spec_match, generated pattern batches x symbolic messages
+  C05.prefix_alt.* / C05.colon_addr.* [bounded] the same harness restricted to the two known signatures
+  C05.index.*                       [bounded] enumeration clause with symbolic digits (up to 9 on both sides)
+  C05.args_exact.*                  [bounded] type clause on messages in exact-size objects (memory safety)
+`python3 props/C05.py [quick|thorough]` lists the generated patterns.
+"""
+import os, re, sys, random, subprocess, itertools
+sys.path.insert(0, os.path.join(os.path.dirname(os.path.abspath(__file__)), "..", "tools"))
 import vlib
 from vlib import Obl
 
 LEVEL = "model_checking"
 FUNCTIONS = ["rtosc_match_number", "rtosc_match_options", "rtosc_match_path", "rtosc_match_args", "rtosc_match",
              "rtosc_argument_string"]
-TRUSTED = []
-ASSUMPTIONS = []
-RULE = ""
-EXPLANATION = ""
+TRUSTED = ["CBMC 6.11.0 (goto-cc, goto-instrument --dfcc, cbmc; built-in SAT back end), its models of isdigit, atoi/strtol, malloc",
+           "spec/pattern_spec.h (executable pattern language, written from the property statement and doc/Guide.adoc; "
+           "cross-checked natively against an independent recursive matcher on 2e9 pattern/message pairs)",
+           "x86-64 LP64 bit-vector semantics; shipped flags -DNDEBUG (asserts compiled out)"]
+OPT_N = {"quick": 12, "thorough": 24}
+ASSUMPTIONS = [
+    "proof obligations: both strings are NUL-terminated objects of any size 1..4096 with arbitrary content; cursors start at any offset",
+    "atoi is replaced by an ASSUMED libc contract in the proof obligations (reads the string it is given, writes nothing); "
+    "the bounded obligations run CBMC's atoi/strtol model",
+    "rtosc_match_options cannot be verified with loop contracts (its `retry:` label shares the head of `while(1)`; goto-instrument "
+    "coalesces the two back edges into the contract-less `goto retry` latch): its contract is proved for strings of <= %d (quick) / "
+    "%d (thorough) bytes only and is ASSUMED beyond that in the rtosc_match_path proof" % (OPT_N["quick"], OPT_N["thorough"]),
+    "rtosc_match_args is recursive over the type alternatives: bounded obligations only",
+    "bounded obligations: patterns are the concrete strings enumerated by props/C05.py (wf_pattern holds, checked in the harness); "
+    "per obligation the address length is fixed, every address byte is symbolic over all bytes a pattern's literal text can spell "
+    "(printable ASCII without space # * , : ? [ ] { }), the type tag string is 0..3 arbitrary non-NUL bytes, the bytes behind it are arbitrary",
+    "address not empty when the pattern has type alternatives (rtosc_argument_string: assert(msg && *msg))",
+    "spec reading: alternatives with backtracking; an index is the maximal digit run; '/' that is not last is literal text; patterns "
+    "where an alternative that is empty or starts with a digit directly follows #N are not well-formed (statement ambiguous there); "
+    "'*' wildcard, '?', '[', ']' are outside the documented form",
+    "type clause is a band: equal to an alternative => must match; neither equal nor an extension => must not; proper extension => either",
+    "C05.match.* give the message 8 arbitrary bytes of slack behind the type tags (result must not depend on them); reads outside an "
+    "exact-size message are the business of C05.args_exact.*",
+]
+BATCH = 8
+RULE = ("proof: one obligation per function under contract; bounded: one obligation per (batch of <= %d generated patterns with the "
+        "same features, address length), per digit-count shape of the enumeration clause, per exact-size message; "
+        "non-trivial = generated >0 cbmc properties; distinct by obligation name" % BATCH)
+EXPLANATION = ("The main sentence (match exactly when ...) is decided bounded-exhaustively: rtosc_match against spec_match for every "
+               "generated pattern x every message inside the stated bound. Memory safety and termination of rtosc_match_number and "
+               "rtosc_match_path hold for strings of any length (proof mode).")
 
 LOOPS = ["dispatch_match.loops"]
 
+# ------------------------------------------------------------------------------------------------ generator
+LIT = ["a", "b", "/", "1"]
+ENUM = ["#2", "#10"]
+ALT = ["{a,b}", "{ab,ba}", "{a/,b1}"]
+ALT_KF = ["{a,ab}", "{ab,a}", "{,a}", "{a,}", "{b,ab,a}"]          # some alternative is a proper prefix of another
+TYPES_MAIN = ["", ":i:f"]
+TYPES_ALL = [":", ":i", ":ii", ":i:f", "::i", ":if:", ":f:ii:i", ":iii", ":T:F", ":s:", ":ifs:if"]
+TYPE_PATHS = ["a", "ab/", "#2", "a#10/", "{a,b}", "b{ab,ba}/"]
+QUICK_DEPTH3 = ["a#2b", "a#10/b", "#2/#2", "a{a,b}b", "{a,b}{ab,ba}a", "a/{a,b}/", "1#10{a,b}", "{a,b}#2/", "ab/a", "a1#2",
+                "{a/,b1}#2", "#10{ab,ba}", "/a/", "b{a/,b1}a"]
 
+
+def _paths(atoms, depth):
+    out = []
+    for d in range(0, depth + 1):
+        for seq in itertools.product(atoms, repeat=d):
+            out.append("".join(seq))
+    return out
+
+
+def _with_trailing(paths):
+    out = []
+    for p in paths:
+        out.append(p)
+        if not p.endswith("/"):
+            out.append(p + "/")
+    return out
+
+
+def _random_patterns(n, seed, atoms, lo, hi):
+    rnd = random.Random(0xC05 + seed)
+    out = []
+    for _ in range(n):
+        k = rnd.randint(lo, hi)
+        p = "".join(rnd.choice(atoms) for _ in range(k))
+        if rnd.random() < 0.4 and not p.endswith("/"):
+            p += "/"
+        p += rnd.choice(TYPES_MAIN + TYPES_ALL[:6])
+        out.append(p)
+    return out
+
+
+def classify(ctx, pats):
+    """(wf, prefix_alternative) per pattern, computed by the spec's own predicates (harness/C05/classify.c)."""
+    exe = os.path.join(ctx.scratch, "c05_classify")
+    if not os.path.exists(exe):
+        subprocess.run(["gcc", "-O1", "-I", os.path.join(vlib.VERIF, "spec"), os.path.join(vlib.VERIF, "harness/C05/classify.c"),
+                        "-o", exe], check=True)
+    r = subprocess.run([exe], input="\n".join(pats) + "\n", stdout=subprocess.PIPE, universal_newlines=True, check=True)
+    rows = [l.split() for l in r.stdout.splitlines()]
+    assert len(rows) == len(pats), "classifier returned %d rows for %d patterns" % (len(rows), len(pats))
+    return [(a == "1", b == "1") for a, b in rows]
+
+
+def generate(ctx):
+    """returns (normal, kf): lists of well-formed patterns without / with a prefix alternative"""
+    quick = ctx.tier == "quick"
+    atoms = LIT + ENUM + ALT
+    cand = []
+    for p in _with_trailing(_paths(atoms, 2 if quick else 3)):
+        for t in TYPES_MAIN:
+            cand.append(p + t)
+    if quick:       # a slice of depth 3: enumeration / alternatives between literals, '/' followed by more pattern
+        for p in QUICK_DEPTH3:
+            for t in TYPES_MAIN:
+                cand.append(p + t)
+    for p in TYPE_PATHS:
+        for t in TYPES_ALL:
+            cand.append(p + t)
+    cand += _random_patterns(24 if quick else 160, ctx.seed, atoms, 4, 6)
+    # known finding family: prefix alternatives in a few contexts
+    kfc = []
+    ctxs = (("", ""), ("", "b"), ("a", "/"), ("", "c:i"), ("#2", "b")) if quick else \
+        list(itertools.product(["", "a", "#2", "/"], ["", "b", "c", "/", "#2", "b:i:f", "{a,b}"]))
+    for a in ALT_KF:
+        for pre, post in ctxs:
+            kfc.append(pre + a + post)
+    seen, allp = set(), []
+    for p in cand + kfc:
+        if p not in seen:
+            seen.add(p); allp.append(p)
+    cls = classify(ctx, allp)
+    normal = [p for p, (wf, kf) in zip(allp, cls) if wf and not kf]
+    kfs = [p for p, (wf, kf) in zip(allp, cls) if wf and kf]
+    return normal, kfs
+
+
+# ------------------------------------------------------------------------------------------------ unwinding
+def features(p):
+    path = p.split(":", 1)[0]
+    return ("#" in path, "{" in path, ":" in p)
+
+
+def unwind_flags(pats, al):
+    """per-loop bounds: without them the recursion of rtosc_match_args and the loops of functions a pattern never
+    reaches are unwound to the global bound behind symbolic pointers (measured: 10 s instead of 0.3 s per pattern).
+    Every bound is guarded by --unwinding-assertions."""
+    plen = max(len(p) for p in pats)
+    pathlen = max(len(p.split(":", 1)[0]) for p in pats)
+    has_e = any(features(p)[0] for p in pats)
+    has_o = any(features(p)[1] for p in pats)
+    typed = any(features(p)[2] for p in pats)
+    nalts = max(p.count(":") for p in pats)
+    altlen = max([len(a) for p in pats if ":" in p for a in p.split(":")[1:]] + [0])
+    ndig = max([len(m) for p in pats for m in re.findall(r"#(\d+)", p)] + [0])
+    grp = max([len(g) for p in pats for g in re.findall(r"\{([^}]*)\}", p)] + [0])
+    us = {
+        "rtosc_match_args": nalts + 1 if typed else 1,
+        "rtosc_match_args.0": altlen + 1 if typed else 1,
+        "rtosc_argument_string.0": al + 1 if typed else 1,
+        "rtosc_argument_string.1": 5 if typed else 1,
+        "rtosc_match_path.0": 1, "rtosc_match_path.1": 1,
+        "rtosc_match_path.2": pathlen + 2,
+        "rtosc_match_options.0": grp + 2 if has_o else 1,
+        "rtosc_match_options.1": grp + 2 if has_o else 1,
+        "rtosc_match_options.2": grp + 2 if has_o else 1,
+        "rtosc_match_options.3": grp + 2 if has_o else 1,
+        "rtosc_match_number.0": ndig + 1 if has_e else 1,
+        "rtosc_match_number.1": al + 1 if has_e else 1,
+        "strtol.0": max(ndig, al) + 2 if has_e else 1,
+    }
+    glob = max(plen + 3, al + 3, 14)
+    return ["--unwind", str(glob), "--unwindset", ",".join("%s:%d" % kv for kv in sorted(us.items())),
+            "--unwinding-assertions", "--drop-unused-functions"]
+
+
+def cstr(p):
+    return '"%s"' % p.replace("\\", "\\\\").replace('"', '\\"')
+
+
+def key(p):
+    """file-name safe rendering of a pattern"""
+    tr = {"#": "N", "{": "(", "}": ")", ",": "+", "/": "_", ":": "-"}
+    return "".join(tr.get(c, c) for c in p) or "empty"
+
+
+# ------------------------------------------------------------------------------------------------ obligations
 def prepare(ctx):
     vlib.prepare_injected(ctx, LOOPS, ["src/dispatch.c"])
 
 
+def src_defines(ctx):
+    return {"RTOSC_C": '"%s"' % os.path.join(ctx.repo, "src/rtosc.c"),
+            "DISPATCH_C": '"%s"' % os.path.join(ctx.repo, "src/dispatch.c")}
+
+
 def proof_obligations(ctx):
     inj = '"%s"' % os.path.join(ctx.inj, "inj_dispatch.c")
+    raw = '"%s"' % os.path.join(ctx.repo, "src/dispatch.c")
     P = "harness/C05/proof.c"
+    n = OPT_N[ctx.tier]
+    nm = ["--no-malloc-may-fail"]
+    opt = dict(entry="h_match_options", enforce="rtosc_match_options", defines={"DISPATCH_C": raw, "C05_OPT_N": str(n)},
+               instr=nm, mode="bounded", replayable=False,
+               bound="pattern and message strings of <= %d bytes (incl. NUL), arbitrary content and start offsets" % n,
+               timeout=1500)
     return [
         Obl("C05.rtosc_match_number.contract", "C05", P, entry="h_match_number", enforce="rtosc_match_number",
             replace=["atoi"], loops=True, defines={"DISPATCH_C": inj}, termination=True, functions=["rtosc_match_number"],
-            assumed=["atoi"], instr=["--no-malloc-may-fail"], timeout=600),
+            assumed=["atoi"], instr=nm, timeout=600),
+        Obl("C05.rtosc_match_number.canary", "C05", P, entry="h_match_number", enforce="rtosc_match_number",
+            replace=["atoi"], loops=True, defines={"DISPATCH_C": inj}, instr=nm, timeout=600, canary=True),
         Obl("C05.rtosc_match_path.contract", "C05", P, entry="h_match_path", enforce="rtosc_match_path",
             replace=["rtosc_match_options", "rtosc_match_number"], loops=True, defines={"DISPATCH_C": inj}, termination=True,
-            functions=["rtosc_match_path"], instr=["--no-malloc-may-fail"], timeout=900),
-        Obl("C05.rtosc_match_options.contract", "C05", P, entry="h_match_options", enforce="rtosc_match_options",
-            loops=True, defines={"DISPATCH_C": inj}, functions=["rtosc_match_options"], instr=["--no-malloc-may-fail"],
-            mode="bounded", bound="at most %d alternatives tried (goto retry unwound); string lengths 1..4096 under loop contracts" % 3,
-            cbmc=["--unwindset", "rtosc_match_options.3:%d" % 3, "--no-unwinding-assertions"], replayable=False, timeout=900),
+            functions=["rtosc_match_path"], instr=nm, timeout=1500,
+            assumed=["rtosc_match_options beyond %d-byte strings" % n]),
+        Obl("C05.rtosc_match_options.contract", "C05", P, termination=True, functions=["rtosc_match_options"],
+            cbmc=["--unwind", str(n + 1), "--unwinding-assertions"], **opt),
+        Obl("C05.rtosc_match_options.canary", "C05", P, canary=True, cbmc=["--unwind", str(n + 1)], **opt),
     ]
 
 
+def match_obligations(ctx, normal, kfs):
+    H = "harness/C05/match_eq.c"
+    almax = 4 if ctx.tier == "quick" else 5
+    obls = []
+    groups = {}
+    for p in normal:
+        groups.setdefault(features(p), []).append(p)
+    bi = 0
+    for feat in sorted(groups):
+        pats = groups[feat]
+        for i in range(0, len(pats), BATCH):
+            b = pats[i:i + BATCH]
+            bi += 1
+            for al in range(0, almax + 1):
+                if al == 0 and feat[2]:
+                    continue            # typed patterns need a non-empty address
+                d = dict(src_defines(ctx), C05_PATS=",".join(cstr(p) for p in b), C05_NPAT=str(len(b)), C05_AL=str(al))
+                obls.append(Obl("C05.match.b%03d.al%d" % (bi, al), "C05", H, entry="h_match_eq", defines=d, mode="bounded",
+                                bound="generated patterns (props/C05.py) x every address of %d bytes x every type string of 0..3 tags" % al,
+                                cbmc=unwind_flags(b, al), timeout=900, mem_gb=8, case={"patterns": b, "address_length": al}))
+    # vacuity guard: a typed batch where 'must match', 'must not match' and 'either' are all reachable
+    cb = ["a:i:f", "1/:i", "{a,b}::ii"]
+    obls.append(Obl("C05.match.canary", "C05", H, entry="h_match_eq", canary=True, mode="bounded",
+                    defines=dict(src_defines(ctx), C05_PATS=",".join(cstr(p) for p in cb), C05_NPAT=str(len(cb)), C05_AL="1"),
+                    bound="canary", cbmc=unwind_flags(cb, 1), timeout=300))
+    # known signatures, each family twice: PART 0 = everything but the signature (must hold), PART 1 = only the signature
+    kal = [1, 2, 3] if ctx.tier == "quick" else [1, 2, 3, 4, 5]
+    for i in range(0, len(kfs), BATCH):
+        b = kfs[i:i + BATCH]
+        for al in kal:
+            for part in (0, 1):
+                d = dict(src_defines(ctx), C05_PATS=",".join(cstr(p) for p in b), C05_NPAT=str(len(b)), C05_AL=str(al),
+                         C05_KFGROUP="1", C05_PART=str(part))
+                name = ("C05.match.kf%02d.al%d" if part == 0 else "C05.prefix_alt.kf%02d.al%d") % (i // BATCH + 1, al)
+                obls.append(Obl(name, "C05", H, entry="h_match_eq", defines=d, mode="bounded",
+                                bound="patterns with a prefix alternative x every address of %d bytes x every type string of 0..3 tags%s"
+                                      % (al, "" if part == 0 else "; only the prefix-alternative signature is asserted"),
+                                cbmc=unwind_flags(b, al), timeout=900, case={"patterns": b, "address_length": al}))
+    colon = [p for p in normal if ":" in p and len(p) <= 8][:BATCH] + ["a:i", "a#2:i:f"]
+    colon = list(dict.fromkeys(colon))
+    for al in ([2, 3, 4] if ctx.tier == "quick" else [1, 2, 3, 4, 5]):
+        for part in (0, 1):
+            d = dict(src_defines(ctx), C05_PATS=",".join(cstr(p) for p in colon), C05_NPAT=str(len(colon)), C05_AL=str(al),
+                     C05_COLON="1", C05_PART=str(part))
+            name = ("C05.match.colon.al%d" if part == 0 else "C05.colon_addr.al%d") % al
+            obls.append(Obl(name, "C05", H, entry="h_match_eq", defines=d, mode="bounded",
+                            bound="typed patterns x every address of %d bytes that contains ':' x every type string of 0..3 tags%s"
+                                  % (al, "" if part == 0 else "; only the colon-in-address signature is asserted"),
+                            cbmc=unwind_flags(colon, al), timeout=900, case={"patterns": colon, "address_length": al}))
+    return obls
+
+
+def index_obligations(ctx):
+    H = "harness/C05/index.c"
+    if ctx.tier == "quick":
+        digs = [(1, 1), (1, 2), (2, 1), (2, 2), (2, 3), (3, 2), (4, 4), (9, 9), (9, 1), (1, 9), (8, 9)]
+        shapes = [("x", "", 0), ("x", "/", 2), ("", "y", 1), ("x", ":i", 0)]
+    else:
+        digs = [(a, b) for a in range(1, 10) for b in range(1, 10)]
+        shapes = [("x", "", 0), ("x", "", 1), ("x", "/", 1), ("x", "/", 2), ("", "y", 1), ("x", "y", 2), ("x", ":i", 0),
+                  ("", "/:i:", 2), ("x", "{a,b}", 1)]
+    obls = []
+    for nd, md in digs:
+        for pre, psuf, sl in shapes:
+            pat = pre + "#" + "9" * nd + psuf
+            al = len(pre) + md + sl
+            d = dict(src_defines(ctx), C05_PRE=cstr(pre), C05_PSUF=cstr(psuf), C05_ND=str(nd), C05_MD=str(md), C05_SL=str(sl))
+            obls.append(Obl("C05.index.n%d_m%d.%s" % (nd, md, key(pre + "#" + psuf) + "+%d" % sl), "C05", H, entry="h_index",
+                            defines=d, mode="bounded",
+                            bound="pattern %s#N%s, N of %d symbolic digits, index of %d symbolic digits, %d more address bytes"
+                                  % (pre, psuf, nd, md, sl),
+                            cbmc=unwind_flags([pat], al), timeout=900,
+                            case={"shape": pre + "#N" + psuf, "digits_N": nd, "digits_index": md}))
+    obls.append(Obl("C05.index.canary", "C05", H, entry="h_index", canary=True, mode="bounded", bound="canary",
+                    defines=dict(src_defines(ctx), C05_PRE=cstr("x"), C05_PSUF=cstr(""), C05_ND="2", C05_MD="2", C05_SL="0"),
+                    cbmc=unwind_flags(["x#99"], 3), timeout=300))
+    return obls
+
+
+def args_obligations(ctx):
+    H = "harness/C05/args_exact.c"
+    # (pattern, address, types, expected to stay inside the message)
+    cases = [("a:i:f", "a", "", True), ("a:i:f", "a", "f", True), ("a:iii", "a", "T", True), ("ab/:ii:", "ab/c", "ii", True),
+             ("a:iiiiiii", "a", "i", True),
+             ("a:iiii", "a", "T", False), ("a:iiii:f", "a", "", False), ("a#2:iiiiiiii", "a1", "i", False)]
+    obls = []
+    for pat, addr, types, inside in cases:
+        d = dict(src_defines(ctx), C05_PAT=cstr(pat), C05_ADDR=cstr(addr), C05_TYPES=cstr(types))
+        obls.append(Obl("C05.args_exact.%s.%s" % ("in" if inside else "overread", key(pat) + "." + (types or "none")), "C05", H,
+                        entry="h_args_exact", defines=d, mode="bounded",
+                        bound="pattern %s on the exact-size message {%s ,%s}" % (pat, addr, types),
+                        cbmc=unwind_flags([pat], len(addr)), timeout=300,
+                        case={"pattern": pat, "address": addr, "types": types}))
+    obls.append(Obl("C05.args_exact.canary", "C05", H, entry="h_args_exact", canary=True, mode="bounded", bound="canary",
+                    defines=dict(src_defines(ctx), C05_PAT=cstr("a:iiii"), C05_ADDR=cstr("a"), C05_TYPES=cstr("T")),
+                    cbmc=unwind_flags(["a:iiii"], 1), timeout=300))
+    return obls
+
+
 def obligations(ctx):
-    return proof_obligations(ctx)
+    normal, kfs = generate(ctx)
+    ctx.notes.append("C05 generator: %d well-formed patterns without and %d with a prefix alternative (tier %s, seed %d)"
+                     % (len(normal), len(kfs), ctx.tier, ctx.seed))
+    return proof_obligations(ctx) + match_obligations(ctx, normal, kfs) + index_obligations(ctx) + args_obligations(ctx)
+
+
+if __name__ == "__main__":
+    c = vlib.Ctx("C05", sys.argv[1] if len(sys.argv) > 1 else "quick", 0)
+    try:
+        n, k = generate(c)
+        print("\n".join(n)); print("--- prefix alternatives"); print("\n".join(k))
+        print("%d + %d patterns" % (len(n), len(k)))
+    finally:
+        c.cleanup()
